@@ -11,5 +11,5 @@ CONSTANTS
   SigmaSet <- C04_Sigma
   BlankPool <- C04_Blank
   LinePool <- C04_Pool
-INVARIANTS TypeOK ForestMatchesTrie SpellingInvariance AcceptsWellFormed
+INVARIANTS TypeOK ForestMatchesTrie ForestComposes SpellingInvariance AcceptsWellFormed
 CHECK_DEADLOCK FALSE
